@@ -66,3 +66,30 @@ Qed.
 Theorem accepted_valid data ps cs : simple_read data = ROk (ps, cs) -> consistentb ps cs = true -> unchecked_okb ps = true ->
   Valid (map to_course cs) (map to_part ps).
 Proof. intros Hr Hc Hu. apply validb_valid. apply (accepted_validb data ps cs Hr Hc Hu). Qed.
+
+(* the size clause of check_data_consistency is the size bound of the no-overflow theorem (NoOverflow.SizeOK) *)
+Require Import NoOverflow Cao5.
+Lemma sumN_to_course cs : (forall c, In c cs -> (0 <= so_max c)%Z) ->
+  Z.of_nat (sumN (map c_max (map to_course cs))) = fold_right Z.add 0%Z (map so_max cs).
+Proof.
+  induction cs as [|c t IH]; intros H; [reflexivity|]. simpl. rewrite Nat2Z.inj_add.
+  rewrite IH by (intros c' Hc'; apply H; right; exact Hc'). rewrite Z2Nat.id by (apply H; left; reflexivity). reflexivity.
+Qed.
+Lemma countB_le_len l : countB l <= List.length l.
+Proof. apply countB_le. Qed.
+
+Theorem accepted_size_ok data ps cs : simple_read data = ROk (ps, cs) -> consistentb ps cs = true ->
+  SizeOK (map to_course cs) (map to_part ps).
+Proof.
+  intros Hr Hc. destruct (accepted_is_consistent data ps cs Hr Hc) as (_ & _ & Hmm & _). pose proof (consistent_rows ps cs Hc) as Hrows.
+  unfold SizeOK, Cao1.n_, Cao1.m_, Cao1.np. rewrite map_length.
+  pose proof (countB_le_len (map (skippable (map to_course cs) (map to_part ps)) (seq 0 (List.length ps)))) as Hsk. rewrite map_length, seq_length in Hsk.
+  assert (Hm : Z.of_nat (sumN (map c_max (map to_course cs))) = fold_right Z.add 0%Z (map so_max cs)).
+  { apply sumN_to_course. intros c Hcin. pose proof (Hmm c Hcin). lia. }
+  unfold max_rows in Hrows.
+  assert (HW : (0 < WEIGHT_OFFSET)%Z) by (unfold WEIGHT_OFFSET; lia).
+  pose proof (Z.mul_div_le 2147483647 WEIGHT_OFFSET HW) as Hd. unfold HP1.maxI.
+  set (n := Nat.max (sumN (map c_max (map to_course cs)) + countB (map (skippable (map to_course cs) (map to_part ps)) (seq 0 (List.length ps)))) (List.length ps)).
+  assert (Hn : (Z.of_nat n <= Z.of_nat (List.length ps) + fold_right Z.add 0 (map so_max cs))%Z) by (unfold n; lia).
+  nia.
+Qed.
